@@ -37,6 +37,7 @@
 import ClarabelProofs.Lemmas.SolverNSStaleIdem
 import ClarabelProofs.Lemmas.SolverNSStaleAnyStart
 import ClarabelProofs.Lemmas.SolverNSStaleExample
+import ClarabelProofs.Lemmas.SolverNSNormCachesC
 
 namespace Clarabel.C05
 open Clarabel Clarabel.SolverNS
@@ -136,7 +137,7 @@ theorem ns_solve_idempotent (hbeq : ((0 : α) == 0) = true) (st : SolverNS.Setti
     (hI : SolverInvN S) (hk : SolverNS.KktOk S.st)
     (hinit : SolverNS.InitPointOk (SolverNS.resetInfo S.st) st) :
     (∃ r2, r1.S.solve st = .ok r2 ∧ SolverNS.SolveObs r1 r2) ∧ SolverInvN r1.S ∧ SolverNS.KktOk r1.S.st := by
-  obtain ⟨hI1, hI1'⟩ := solve_inv_of_ok hI h1
+  obtain ⟨⟨_, hI1⟩, hI1'⟩ := solve_inv_of_ok hI h1
   exact ⟨solve_twice_obsN hbeq st h1 hI hI1 hk hinit, hI1', (solve_kktOkN h1 hI.st.shapes.cones hk).1⟩
 
 /-- [S] `C05.ns_solve_idempotent_nonsymmetric`: **condition (iii) disappears for problems with a
@@ -254,7 +255,7 @@ theorem ns_solve_idempotent_any_start (hbeq : ((0 : α) == 0) = true) (st : Solv
     {S : SolverNS.Solver α} {r1 : SolverNS.SolveResult α} (h1 : S.solve st = .ok r1)
     (hI : SolverInvN S) (hk : SolverNS.KktOk S.st) :
     (∃ r2, r1.S.solve st = .ok r2 ∧ SolverNS.SolveObs r1 r2) ∧ SolverInvN r1.S ∧ SolverNS.KktOk r1.S.st := by
-  obtain ⟨hI1, hI1'⟩ := solve_inv_of_ok hI h1
+  obtain ⟨⟨_, hI1⟩, hI1'⟩ := solve_inv_of_ok hI h1
   exact ⟨solve_twice_obsN_any hbeq st h1 hI hI1 hk, hI1', (solve_kktOkN h1 hI.st.shapes.cones hk).1⟩
 
 /-- [S] `C05.ns_solve_idempotent_new_any_start`: the same for a solver object fresh from
@@ -268,6 +269,35 @@ theorem ns_solve_idempotent_new_any_start (hbeq : ((0 : α) == 0) = true) {P : C
     ∃ r2, r1.S.solve st = .ok r2 ∧ SolverNS.SolveObs r1 r2 :=
   (ns_solve_idempotent_any_start hbeq st h1 (solverNew_invQ hin hn hperm hpiv hS)
     (solverNew_kktOkN hin hn hperm hS)).1
+
+/-- [S] `C05.ns_solve_fills_norm_caches`: the model with nonsymmetric cones, as the symmetric one
+(`full_solve_keeps_data`, `full_solve_fills_norm_caches`): of the internal problem data `solve()` writes
+the two norm caches only — the data of the returned object is `get_normq(); get_normb()`
+(`Solver.fillNorms`) applied to the data at entry: both caches `Some` of what the two calls answer
+there, every other field unchanged. -/
+theorem ns_solve_fills_norm_caches {S : SolverNS.Solver α} {st : SolverNS.Settings α}
+    {r : SolverNS.SolveResult α} (h : S.solve st = .ok r) :
+    Solver.fillNorms S.st.data = .ok r.S.st.data
+    ∧ ∃ vq vb, Info.getNormq S.st.data.normq S.st.data.q S.st.data.equilibration.dinv
+          S.st.data.equilibration.c = .ok vq
+        ∧ Info.getNormb S.st.data.normb S.st.data.b S.st.data.equilibration.einv = .ok vb
+        ∧ r.S.st.data = { S.st.data with normq := some vq, normb := some vb } :=
+  ⟨SolverNS.solve_data h, SolverNS.solve_data_eq h⟩
+
+/-- [S] `C05.ns_solve_stores_caches_as_the_code`: in the model with nonsymmetric cones too, `solve()` with
+the norm caches stored IN THE PASS, at `Info.update`, where the Rust code stores them
+(`SolverNS.Solver.solveC`, `ClarabelModel/SolverNS/SolveC.lean`), is `SolverNS.Solver.solve`, which stores
+them once in the object it returns: same error, or same trajectory, solution and returned object. -/
+theorem ns_solve_stores_caches_as_the_code (S : SolverNS.Solver α) (st : SolverNS.Settings α) :
+    S.solveC st = S.solve st :=
+  SolverNS.solveC_eq_solve S st
+
+/-- [S] `C05.ns_next_solve_on_entry_data`: the `solve()` after a `solve()` is the `solve()` on the
+returned object with the data at entry put back (the filled caches answer as the caches at entry did). -/
+theorem ns_next_solve_on_entry_data {S : SolverNS.Solver α} {st : SolverNS.Settings α}
+    {r : SolverNS.SolveResult α} (h : S.solve st = .ok r) (st' : SolverNS.Settings α) :
+    r.S.solve st' = (r.S.withData S.st.data).solve st' :=
+  SolverNS.solve_putBack h st'
 
 end nsAnyStart
 
